@@ -22,7 +22,7 @@ EXPLANATION = (
 ASSUMPTIONS = ["std::atomic<thread_state>::compare_exchange_strong is atomic", "work_items_/new_tasks_/terminated_items_ deliver each pushed element to one pop (C17)",
                "on_start_thread runs on the owning worker before the pool's start-up barrier releases any work (reserve() calls exempt from R6)"]
 THOROUGH_CONFIGS = [["-UNDEBUG", "-DPIKA_DEBUG"], ["-DPIKA_HAVE_THREAD_QUEUE_WAITTIME"]]
-FLOORS = {"C01.R1": 8, "C01.R2": 6, "C01.R3": 8, "C01.R4": 24, "C01.R5": 12, "C01.R6": 10, "C01.R7": 9, "C01.R8": 2, "C01.R9": 1, "C01.R10": 6, "C01.R11": 4, "C01.R12": 20, "C01.R13": 4, "C01.R14": 3, "C01.R15": 5, "C01.R16": 6}
+FLOORS = {"C01.R1": 8, "C01.R2": 6, "C01.R3": 8, "C01.R4": 24, "C01.R5": 12, "C01.R6": 10, "C01.R7": 9, "C01.R8": 2, "C01.R9": 1, "C01.R10": 6, "C01.R11": 4, "C01.R12": 20, "C01.R13": 4, "C01.R14": 3, "C01.R15": 5, "C01.R16": 6, "C01.R17": 3}
 
 TSS = "pika::threads::detail::thread_schedule_state"
 TD = "pika::threads::detail::thread_data"
@@ -794,6 +794,44 @@ def run(rep, tier):
                 rep.ok("C01.R14", fn, "'%s': add_new is reached on every path" % name)
     if n14 < 3:
         raise AnalysisBroken("C01.R14: add_new_always not evaluated")
+
+    # ---- R17: the owner converts its staged tasks whenever it looks (scheduling_loop calls this on every yield, not only when idle)
+    rep.rule("C01.R17", "K7 (evaluated): thread_queue::wait_or_add_new on the worker's own queue reaches add_new_always whenever staged tasks exist and the queue lock is free - "
+             "also while pending work exists (the scheduling loop calls it after every yield; a worker whose pending list never runs dry, e.g. two tasks that yield "
+             "in turn, would otherwise never start the task they wait for)")
+    from engine.kinds import interp as _ip17, eval_tree as _ev17, Unknown as _U17
+    own = [f for f in tqs if f.qname.endswith("::wait_or_add_new") and not any("thread_queue" in str(p_.get("type", "")) and "*" in str(p_.get("type", "")) for p_ in f.params)]
+    if not own:
+        raise AnalysisBroken("thread_queue::wait_or_add_new (own-queue overload) not found")
+    for fn in own[:1]:
+        for name, staged, pending, must in (("staged tasks and pending work", 3, 2, True), ("staged tasks, nothing pending", 3, 0, True), ("nothing staged", 0, 2, False)):
+            def h(e, env, staged=staged, pending=pending):
+                if e.get("k") == "call":
+                    r_ = P(e.get("recv")) if e.get("recv") is not None else ""
+                    cs = callee_short(e)
+                    if cs == "load" and "new_tasks_count_" in r_:
+                        return staged
+                    if cs == "load" and "work_items_count_" in r_:
+                        return pending
+                    if cs == "owns_lock":
+                        return True
+                    if cs in ("empty",) and "work_items_" in r_:
+                        return pending == 0
+                raise _U17(T(e))
+            res = _ip17(fn, {"$call": h}, until=lambda e: e.get("k") == "call" and callee_short(e) in ("add_new_always", "add_new"))
+            reached = [1 for end, e_, evs, ev in res if end == "stop"]
+            gave_up = [1 for end, e_, evs, ev in res if end in ("return", "exit")]
+            if must and gave_up:
+                rep.bad("C01.R17", fn, fn.loc, "staged-not-converted-while-busy:" + name.replace(" ", "-"), "thread_queue::wait_or_add_new returns without converting staged tasks in the situation "
+                        "'%s' (queue lock free): a task staged on a worker whose pending list is kept non-empty by yielding tasks is never started" % name)
+            elif must and reached:
+                rep.ok("C01.R17", fn, "'%s': add_new_always is reached" % name)
+            elif (not must) and not reached:
+                rep.ok("C01.R17", fn, "'%s': returns without taking the lock" % name)
+            elif not must:
+                rep.ok("C01.R17", fn, "'%s': looks anyway" % name)
+            else:
+                raise AnalysisBroken("wait_or_add_new: scenario '%s' not decided" % name)
 
     # ---- R12: the containers the work queues are built on (the same rules decide C17)
     import_rules(rep, tier, "C17", ("C17.R4", "C17.R5", "C17.R7"), "C01.R12",
